@@ -150,19 +150,48 @@ func (c *cli) reachUnder(fn *ssa.Function, assign map[string]string) map[*ssa.Ba
 }
 
 func (c *cli) reachUnderV(fn *ssa.Function, assign map[string]string, assignV map[ssa.Value]string) map[*ssa.BasicBlock]bool {
-	cut := EdgeSet{}
-	for _, b := range fn.Blocks {
-		if iff, ok := b.Instrs[len(b.Instrs)-1].(*ssa.If); ok {
-			if v, known := c.condUnderV(iff.Cond, assign, assignV); known {
-				if v {
-					cut[Edge{b, 1}] = true
-				} else {
-					cut[Edge{b, 0}] = true
-				}
-			}
+	reach, _ := c.reachCutUnderV(fn, assign, assignV)
+	return reach
+}
+
+// condPhiUnder decides a boolean that is a phi of conditions (a named boolean
+// computed with && / ||): every edge that is still feasible must carry a value
+// that is decided, and they must agree.
+func (c *cli) condPhiUnder(cond ssa.Value, assign map[string]string, assignV map[ssa.Value]string, reach map[*ssa.BasicBlock]bool, cut EdgeSet, depth int) (bool, bool) {
+	neg := false
+	for {
+		u, ok := cond.(*ssa.UnOp)
+		if !ok || u.Op != token.NOT {
+			break
 		}
+		cond, neg = u.X, !neg
 	}
-	return reachFrom(fn.Blocks[0], cut)
+	if b, ok := constBool(cond); ok {
+		return b != neg, true
+	}
+	if v, known := c.condUnderV(cond, assign, assignV); known {
+		return v != neg, true
+	}
+	phi, ok := cond.(*ssa.Phi)
+	if !ok || depth > 4 {
+		return false, false
+	}
+	in := feasibleIn(phi, reach, cut)
+	if len(in) == 0 {
+		return false, false
+	}
+	var val, have bool
+	for _, i := range in {
+		v, known := c.condPhiUnder(phi.Edges[i], assign, assignV, reach, cut, depth+1)
+		if !known {
+			return false, false
+		}
+		if have && v != val {
+			return false, false
+		}
+		val, have = v, true
+	}
+	return val != neg, true
 }
 
 // flagConsts: constants a string flag is compared with in fn.
@@ -592,6 +621,17 @@ func (c *cli) errorPassed(call *ssa.Call, helpers map[*ssa.Function]bool, seen m
 	if sf := staticCallee(call); sf != nil && helpers[sf] {
 		return true, "error is handed to " + sf.Name() + ", which exits with status 2"
 	}
+	// a helper of package main that does the nil test and the exit itself
+	if sf := staticCallee(call); sf != nil && sf.Blocks != nil && sf.Pkg == c.pkg {
+		for i, a := range call.Call.Args {
+			if i >= len(sf.Params) || !isErrorType(sf.Params[i].Type()) || !isErrorType(a.Type()) {
+				continue
+			}
+			if ok, why := c.errorHandled(sf.Params[i], helpers, seen); ok {
+				return true, "error is handed to " + sf.Name() + ", where " + why
+			}
+		}
+	}
 	sig := call.Call.Signature()
 	if sig != nil && sig.Results().Len() == 1 && isErrorType(sig.Results().At(0).Type()) {
 		switch calleeFullName(call) {
@@ -705,7 +745,99 @@ func (c *cli) renderingCall(call *ssa.Call, idx int, seen map[ssa.Value]bool) (b
 		}
 		return true, ""
 	}
+	// a function taken out of a package-level table of function literals that is only filled by the initialiser
+	if fns := c.tableCallees(call); len(fns) > 0 {
+		for _, sf := range fns {
+			for _, ret := range returnsOf(sf) {
+				if idx >= len(ret.Results) {
+					return false, "result index"
+				}
+				// error returns hand back the empty string next to the error
+				if ok, why := c.rendering(ret.Results[idx], seen); !ok {
+					return false, "in " + fnName(sf) + ": " + why
+				}
+			}
+		}
+		return true, ""
+	}
 	return false, "result of " + calleeFullName(call)
+}
+
+// tableCallees: the call's function value is looked up in a package-level map
+// whose values are function literals stored by the package initialiser and
+// that is never written elsewhere; returns those functions.
+func (c *cli) tableCallees(call *ssa.Call) []*ssa.Function {
+	v := call.Call.Value
+	if ex, ok := v.(*ssa.Extract); ok && ex.Index == 0 {
+		v = ex.Tuple
+	}
+	lk, ok := v.(*ssa.Lookup)
+	if !ok {
+		return nil
+	}
+	ld, ok := lk.X.(*ssa.UnOp)
+	if !ok || ld.Op != token.MUL {
+		return nil
+	}
+	g, ok := ld.X.(*ssa.Global)
+	if !ok || g.Pkg != c.pkg {
+		return nil
+	}
+	initFn := c.pkg.Func("init")
+	if initFn == nil {
+		return nil
+	}
+	var mk *ssa.MakeMap
+	stores, okAll := 0, true
+	for fn := range c.w.AllFunctions() {
+		home := fn
+		for home.Parent() != nil {
+			home = home.Parent()
+		}
+		if home.Pkg != c.pkg || fn.Blocks == nil {
+			continue
+		}
+		allInstrs(fn, func(in ssa.Instruction) {
+			switch x := in.(type) {
+			case *ssa.Store:
+				if x.Addr == ssa.Value(g) {
+					stores++
+					m, isMk := x.Val.(*ssa.MakeMap)
+					if fn != initFn || !isMk {
+						okAll = false
+					}
+					mk = m
+				}
+			case *ssa.MapUpdate:
+				if l2, isLd := x.Map.(*ssa.UnOp); isLd && l2.X == ssa.Value(g) {
+					okAll = false
+				}
+			}
+		})
+	}
+	if !okAll || stores != 1 || mk == nil {
+		return nil
+	}
+	var out []*ssa.Function
+	for _, ref := range *mk.Referrers() {
+		switch x := ref.(type) {
+		case *ssa.MapUpdate:
+			f := closureValue(x.Value, 0)
+			if f == nil {
+				if fv, isF := x.Value.(*ssa.Function); isF {
+					f = fv
+				}
+			}
+			if f == nil || f.Blocks == nil {
+				return nil
+			}
+			out = append(out, f)
+		case *ssa.Store:
+		default:
+			return nil
+		}
+	}
+	return out
 }
 
 func (c *cli) ruleOutput(r *Report) {
@@ -998,18 +1130,33 @@ func (c *cli) stringConstsCompared() map[string]bool {
 // reachCutUnderV is reachUnderV that also returns the edges decided away.
 func (c *cli) reachCutUnderV(fn *ssa.Function, assign map[string]string, assignV map[ssa.Value]string) (map[*ssa.BasicBlock]bool, EdgeSet) {
 	cut := EdgeSet{}
-	for _, b := range fn.Blocks {
-		if iff, ok := b.Instrs[len(b.Instrs)-1].(*ssa.If); ok {
-			if v, known := c.condUnderV(iff.Cond, assign, assignV); known {
+	reach := reachFrom(fn.Blocks[0], cut)
+	for round := 0; round < 4; round++ {
+		changed := false
+		for _, b := range fn.Blocks {
+			iff, ok := b.Instrs[len(b.Instrs)-1].(*ssa.If)
+			if !ok || cut[Edge{b, 0}] || cut[Edge{b, 1}] {
+				continue
+			}
+			v, known := c.condUnderV(iff.Cond, assign, assignV)
+			if !known {
+				v, known = c.condPhiUnder(iff.Cond, assign, assignV, reach, cut, 0)
+			}
+			if known {
 				if v {
 					cut[Edge{b, 1}] = true
 				} else {
 					cut[Edge{b, 0}] = true
 				}
+				changed = true
 			}
 		}
+		if !changed {
+			break
+		}
+		reach = reachFrom(fn.Blocks[0], cut)
 	}
-	return reachFrom(fn.Blocks[0], cut), cut
+	return reach, cut
 }
 
 // feasibleIn: indices of the phi edges whose predecessor is reachable over an edge that was not cut.
@@ -1187,6 +1334,33 @@ func (ev *boolEval) strOf(v ssa.Value, reach map[*ssa.BasicBlock]bool, cut EdgeS
 	if f := ev.c.flagOf(v); f != "" {
 		if s, ok := assign[f]; ok {
 			return s, true
+		}
+	}
+	if call, ok := v.(*ssa.Call); ok && isStringType(call.Type()) && ev.depth < 3 {
+		// a helper of package main that picks a string from its arguments (e.g. the empty rendering of a format)
+		if sf := staticCallee(call); sf != nil && sf.Blocks != nil && sf.Pkg == ev.c.pkg && len(call.Call.Args) == len(sf.Params) {
+			inner := map[ssa.Value]string{}
+			for i, a := range call.Call.Args {
+				if s, ok := ev.strOf(a, reach, cut, bind, assign); ok {
+					inner[sf.Params[i]] = s
+				}
+			}
+			rch, rcut := ev.c.reachCutUnderV(sf, assign, inner)
+			sub := &boolEval{c: ev.c, depth: ev.depth + 1}
+			out, have := "", false
+			for _, ret := range returnsOf(sf) {
+				if !rch[ret.Block()] {
+					continue
+				}
+				s, ok := sub.strOf(ret.Results[0], rch, rcut, inner, assign)
+				if !ok || (have && s != out) {
+					return "", false
+				}
+				out, have = s, true
+			}
+			if have {
+				return out, true
+			}
 		}
 	}
 	if lk, ok := v.(*ssa.Lookup); ok && !lk.CommaOk {
@@ -2050,26 +2224,47 @@ func (c *cli) rulePlumbing(r *Report) {
 		ok := true
 		why := ""
 		n := 0
-		allInstrs(fn, func(in ssa.Instruction) {
-			call, isCall := in.(*ssa.Call)
-			if !isCall {
-				return
-			}
-			name := c.libCallee(call)
-			var want *ssa.Parameter
-			switch name {
-			case "ReadDiffString", "ReadPatchString", "ReadMergeString":
-				want = strParams[0]
-			case "ReadJsonString", "ReadYamlString":
-				want = strParams[1]
-			default:
-				return
-			}
-			n++
-			if strip(call.Call.Args[0]) != ssa.Value(want) {
-				ok, why = false, fmt.Sprintf("%s reads %s", name, valueName(strip(call.Call.Args[0])))
-			}
-		})
+		var scan func(f *ssa.Function, role map[ssa.Value]int, depth int)
+		scan = func(f *ssa.Function, role map[ssa.Value]int, depth int) {
+			allInstrs(f, func(in ssa.Instruction) {
+				call, isCall := in.(*ssa.Call)
+				if !isCall {
+					return
+				}
+				name := c.libCallee(call)
+				want := -1
+				switch name {
+				case "ReadDiffString", "ReadPatchString", "ReadMergeString":
+					want = 0
+				case "ReadJsonString", "ReadYamlString":
+					want = 1
+				}
+				if want >= 0 {
+					n++
+					if got, has := role[strip(call.Call.Args[0])]; !has || got != want {
+						ok, why = false, fmt.Sprintf("%s reads %s", name, valueName(strip(call.Call.Args[0])))
+					}
+					return
+				}
+				// a helper of package main that is handed one of the inputs reads on the routine's behalf
+				sf := staticCallee(call)
+				if sf == nil || sf.Blocks == nil || sf.Pkg != c.pkg || depth >= 3 {
+					return
+				}
+				inner := map[ssa.Value]int{}
+				for i, a := range call.Call.Args {
+					if i < len(sf.Params) {
+						if k, has := role[strip(a)]; has {
+							inner[sf.Params[i]] = k
+						}
+					}
+				}
+				if len(inner) > 0 {
+					scan(sf, inner, depth+1)
+				}
+			})
+		}
+		scan(fn, map[ssa.Value]int{strParams[0]: 0, strParams[1]: 1}, 0)
 		_ = d
 		r.Check(ok && n >= 5, rule, c.key(fn, "patch(FILE1)->document(FILE2)"), pos, "FILE1 is handed to the diff readers and FILE2/stdin to the document readers", "inputs are routed to the wrong reader: "+why)
 	}
